@@ -1,5 +1,6 @@
 import Proofs.Lemmas.Genesis
 import Proofs.Lemmas.DepositTree
+import Proofs.Lemmas.GenesisRefine
 /-!
 # C13 — genesis construction equals `initialize_beacon_state_from_eth1`
 
@@ -159,6 +160,61 @@ theorem inc_root_eq_depositListRoot (leaves : List Bytes) (hlen : leaves.length 
       depositListRoot leaves := by
   rw [depositListRoot, listRoot_eq_spec H2 ZERO32 zeroFn lenNode zeroFn_eq,
     incremental_deposit_root H2 ZERO32 zeroFn lenNode zeroFn_eq DEPOSIT_CONTRACT_TREE_DEPTH leaves hlen]
+
+/-! ## The code-shaped model of `GenesisFromEth1` / `KickStart` against the specification -/
+
+/-- **`GenesisFromEth1` equals the specification (partial: the overflow-free domain).** For every eth1 block hash,
+timestamp and deposit list with `eth1_timestamp + GENESIS_DELAY < 2^64`, fewer than `2^32` deposits and a total
+deposited amount below `2^64` Gwei, the code-shaped model of `phase0.GenesisFromEth1` (incremental deposit root,
+`ProcessDeposit` through the pubkey lookup, `AddValidator`, activation loop, validators root, context construction)
+returns **exactly** the state of `initialize_beacon_state_from_eth1` — the `ignoreSignaturesAndProofs` flag read as
+"proofs unchecked, every decodable signature valid" (`adj`) — except that it refuses when that state has fewer
+validators than `SLOTS_PER_EPOCH` or no active validator (the two recorded known findings), and it fails exactly
+when the specification fails (an invalid deposit proof).
+Missing for the full statement: inputs on which the pyspec raises a `uint64` overflow while Go wraps. -/
+theorem genesis_eq_spec_partial (cfg : Config) (hash : Bytes) (time : Nat) (deps : List DepositIn) (ignore : Bool)
+    (htime : time + cfg.GENESIS_DELAY < 2 ^ 64) (hlen : deps.length < 2 ^ 32) (hsum : amountsSum deps < 2 ^ 64)
+    (hspe : 1 ≤ cfg.SLOTS_PER_EPOCH) :
+    Impl.genesisFromEth1 cfg hash time deps ignore =
+      match initialize_beacon_state_from_eth1 cfg hash time (deps.map (adj ignore)) (!ignore) with
+      | .ok s =>
+        if s.validators.length < cfg.SLOTS_PER_EPOCH ∨ (get_active_validator_indices s GENESIS_EPOCH).isEmpty = true then none
+        else some s
+      | .error _ => none :=
+  genesisFromEth1_eq_spec cfg hash time deps ignore htime hlen hsum hspe
+
+/-- non-vacuity of the domain hypotheses: the empty deposit list at time 0 satisfies them whenever the configuration does -/
+example (cfg : Config) (h : cfg.GENESIS_DELAY < 2 ^ 64) :
+    0 + cfg.GENESIS_DELAY < 2 ^ 64 ∧ ([] : List DepositIn).length < 2 ^ 32 ∧ amountsSum [] < 2 ^ 64 :=
+  ⟨by omega, by decide, by decide⟩
+
+/-- **KickStart is genesis with proofs ignored and the time overridden (partial: overflow-free domain).**
+`KickStartState[WithSignatures]` (model: `Impl.kickStart`, which runs `GenesisFromEth1(…, time 0, deposits, true)` and
+then sets the genesis time) returns exactly `kickStartSpec`: the specification's genesis over the same deposits with
+proofs unchecked and every decodable signature valid, `genesis_time` replaced — with the same two refusals. -/
+theorem kickstart_is_genesis_partial (cfg : Config) (hash : Bytes) (time : Nat) (deps : List DepositIn)
+    (hdelay : cfg.GENESIS_DELAY < 2 ^ 64) (hlen : deps.length < 2 ^ 32) (hsum : amountsSum deps < 2 ^ 64)
+    (hspe : 1 ≤ cfg.SLOTS_PER_EPOCH) :
+    Impl.kickStart cfg hash time deps =
+      match kickStartSpec cfg hash time deps with
+      | .ok s =>
+        if s.validators.length < cfg.SLOTS_PER_EPOCH ∨ (get_active_validator_indices s GENESIS_EPOCH).isEmpty = true then none
+        else some s
+      | .error _ => none := by
+  unfold Impl.kickStart kickStartSpec
+  rw [genesisFromEth1_eq_spec cfg hash 0 deps true (by omega) hlen hsum hspe]
+  have hadj : deps.map (adj true) = deps.map (fun d => { d with verifyOk := true }) := by
+    apply List.map_congr_left; intro d _; simp [adj]
+  simp only [hadj, Bool.not_true, bind, Option.bind, Except.bind, pure, Except.pure]
+  cases initialize_beacon_state_from_eth1 cfg hash 0 (deps.map fun d => { d with verifyOk := true }) false with
+  | error e => rfl
+  | ok s =>
+    simp only []
+    have hact : get_active_validator_indices { s with genesis_time := time } GENESIS_EPOCH = get_active_validator_indices s GENESIS_EPOCH := rfl
+    rw [hact]
+    by_cases hc : s.validators.length < cfg.SLOTS_PER_EPOCH ∨ (get_active_validator_indices s GENESIS_EPOCH).isEmpty = true
+    · rw [if_pos hc, if_pos hc]
+    · rw [if_neg hc, if_neg hc]
 
 /-- non-vacuity: the construction succeeds (here: on the empty deposit list) -/
 example (cfg : Config) (hash : Bytes) (h : 5 + cfg.GENESIS_DELAY < 2 ^ 64) :
